@@ -132,6 +132,7 @@ pub struct DupStale;
 impl<Y: Sys> Visitor<Y> for DupStale {
     fn visit(&mut self, h: &Hist<Y>, cfg: &Cfg, st: &mut Stats, sink: &mut Sink) {
         for m in h.new_masks() {
+            let nc = !causally_closed(&h.recs, m);
             for (i, e) in h.table[m as usize].iter().enumerate() {
                 let before = Y::reads(&e.s);
                 st.outcome(&before);
@@ -141,8 +142,16 @@ impl<Y: Sys> Visitor<Y> for DupStale {
                     st.aux_transitions += 1;
                     if s2 != e.s {
                         let after = Y::reads(&s2);
-                        let kind = if after != before { "dup-changes-reads" } else { "dup-changes-state" };
-                        sink.fail(h, kind, m, || format!("K={:?}: {} then re-applying op{}: reads {} -> {}; state {:?} -> {:?}", bits(m), h.derivation(m, i), j, before, after, e.s, s2));
+                        let hidden = Y::observable_view(&e.s).is_some() && Y::observable_view(&e.s) == Y::observable_view(&s2);
+                        let kind = if after != before {
+                            "dup-changes-reads"
+                        } else if hidden {
+                            "dup-changes-hidden-state"
+                        } else {
+                            "dup-changes-state"
+                        };
+                        let kind = if nc { format!("{}-noncausal", kind) } else { kind.to_string() };
+                        sink.fail(h, &kind, m, || format!("K={:?}: {} then re-applying op{}: reads {} -> {}; state {:?} -> {:?}", bits(m), h.derivation(m, i), j, before, after, e.s, s2));
                     }
                 }
                 if cfg.merge && Y::HAS_MERGE {
@@ -155,8 +164,16 @@ impl<Y: Sys> Visitor<Y> for DupStale {
                             st.aux_transitions += 1;
                             if s2 != e.s {
                                 let after = Y::reads(&s2);
-                                let kind = if after != before { "stale-merge-changes-reads" } else { "stale-merge-changes-state" };
-                                sink.fail(h, kind, m, || {
+                                let hidden = Y::observable_view(&e.s).is_some() && Y::observable_view(&e.s) == Y::observable_view(&s2);
+                                let kind = if after != before {
+                                    "stale-merge-changes-reads"
+                                } else if hidden {
+                                    "stale-merge-changes-hidden-state"
+                                } else {
+                                    "stale-merge-changes-state"
+                                };
+                                let kind = if nc { format!("{}-noncausal", kind) } else { kind.to_string() };
+                                sink.fail(h, &kind, m, || {
                                     format!("K={:?}: {} merging stale state {} (K2={:?}): reads {} -> {}; state {:?} -> {:?}", bits(m), h.derivation(m, i), h.derivation(m2, i2), bits(m2), before, after, e.s, s2)
                                 });
                             }
@@ -344,6 +361,8 @@ impl<Y: Sys> Visitor<Y> for ValidateMerge {
 pub struct ResetRemoveCheck {
     pub actors: u8,
     pub max_counter: u64,
+    /// also check rr(c1);rr(c2) == rr(c1 join c2) for every pair of grid clocks (quadratic)
+    pub compose: bool,
 }
 fn rr_model(v: &RrView, c: &Vec<(u8, u64)>) -> RrView {
     use crate::systems::clk_sub;
@@ -362,6 +381,7 @@ fn rr_model(v: &RrView, c: &Vec<(u8, u64)>) -> RrView {
             pend.entry(c2).or_default().extend(names.iter().cloned());
         }
     }
+    elems.sort();
     RrView { clock: clk_sub(&v.clock, c), elems, pending: pend.into_iter().map(|(k, v)| (k, v.into_iter().collect())).collect() }
 }
 pub fn clock_grid(actors: u8, maxc: u64) -> Vec<VClock<u8>> {
@@ -411,7 +431,7 @@ impl<Y: Sys> Visitor<Y> for ResetRemoveCheck {
                     if Y::rr_view(&s2) != got {
                         sink.fail(h, "reset-remove-not-idempotent", m, || format!("K={:?}: {}; reset_remove({:?}) twice differs from once", bits(m), h.derivation(m, i), cv(c)));
                     }
-                    for c2 in grid.iter() {
+                    for c2 in grid.iter().filter(|_| self.compose) {
                         let mut a = s1.clone();
                         Y::reset_remove(&mut a, c2);
                         let mut b = e.s.clone();
@@ -432,13 +452,16 @@ impl<Y: Sys> Visitor<Y> for ResetRemoveCheck {
         }
     }
     fn fresh(&self) -> Box<dyn Visitor<Y>> {
-        Box::new(ResetRemoveCheck { actors: self.actors, max_counter: self.max_counter })
+        Box::new(ResetRemoveCheck { actors: self.actors, max_counter: self.max_counter, compose: self.compose })
     }
 }
 
 // ------------------------------------------------------------------------------------------------
 /// C19: serde round trip at every save point, and identical behaviour afterwards.
-pub struct SerdeCheck;
+pub struct SerdeCheck {
+    /// also compare every merge with every reachable peer state between restored and original replica
+    pub resume_merge: bool,
+}
 impl<Y: Sys> Visitor<Y> for SerdeCheck {
     fn visit(&mut self, h: &Hist<Y>, cfg: &Cfg, st: &mut Stats, sink: &mut Sink) {
         let n = h.len();
@@ -493,7 +516,7 @@ impl<Y: Sys> Visitor<Y> for SerdeCheck {
                         sink.fail(h, "resume-differs", m, || format!("K={:?}: {}: applying op{} to the restored replica gives {:?}, to the original {:?}", bits(m), h.derivation(m, i), jx, b, a));
                     }
                 }
-                if cfg.merge && Y::HAS_MERGE {
+                if cfg.merge && Y::HAS_MERGE && self.resume_merge {
                     for m2 in 0..(h.table.len() as Mask) {
                         for e2 in h.table[m2 as usize].iter() {
                             let mut a = e.s.clone();
@@ -515,7 +538,7 @@ impl<Y: Sys> Visitor<Y> for SerdeCheck {
         }
     }
     fn fresh(&self) -> Box<dyn Visitor<Y>> {
-        Box::new(SerdeCheck)
+        Box::new(SerdeCheck { resume_merge: self.resume_merge })
     }
 }
 
@@ -740,5 +763,59 @@ impl Visitor<crate::systems::glist::Gl> for GListIndex {
     }
     fn fresh(&self) -> Box<dyn Visitor<crate::systems::glist::Gl>> {
         Box::new(GListIndex)
+    }
+}
+
+// ------------------------------------------------------------------------------------------------
+/// Self-check of the lattice reduction (DESIGN.md §3.7): an independent, deliberately naive enumerator
+/// delivers every admissible permutation of the ops without any table or deduplication; the set of end
+/// states must equal what the lattice computed for the full knowledge set, and the number of
+/// permutations must equal the schedule count of the DP.  A mismatch is a machinery error.
+pub struct SelfCheck;
+fn brute<Y: Sys>(h: &Hist<Y>, disc: Disc, done: Mask, s: &Y::S, out: &mut Vec<Y::S>, count: &mut u64, st: &mut Stats) {
+    let n = h.len();
+    if done == h.full() {
+        *count += 1;
+        if !out.iter().any(|x| x == s) {
+            out.push(s.clone());
+        }
+        return;
+    }
+    for j in 0..n {
+        if done >> j & 1 == 1 {
+            continue;
+        }
+        let ok = match disc {
+            Disc::Causal => h.recs[j].vis & !done == 0,
+            Disc::Fifo => (0..j).all(|i| h.recs[i].author != h.recs[j].author || done >> i & 1 == 1),
+            Disc::Any => true,
+        };
+        if !ok {
+            continue;
+        }
+        let mut s2 = s.clone();
+        Y::apply(&mut s2, &h.recs[j].op);
+        st.aux_transitions += 1;
+        brute(h, disc, done | 1 << j, &s2, out, count, st);
+    }
+}
+impl<Y: Sys> Visitor<Y> for SelfCheck {
+    fn visit(&mut self, h: &Hist<Y>, cfg: &Cfg, st: &mut Stats, sink: &mut Sink) {
+        if h.len() == 0 {
+            return;
+        }
+        let mut out = vec![];
+        let mut count = 0;
+        brute(h, cfg.disc, 0, &Y::init(), &mut out, &mut count, st);
+        st.checks += 1;
+        let lattice: Vec<&Y::S> = h.table[h.full() as usize].iter().filter(|e| e.pure_ops).map(|e| &e.s).collect();
+        let same = out.len() == lattice.len() && out.iter().all(|s| lattice.iter().any(|l| *l == s));
+        let dp = count_schedules(h, cfg.disc);
+        if !same || dp != count {
+            sink.fail(h, "explorer-self-check", h.full(), || format!("brute force: {} schedules, {} distinct end states; lattice: {} schedules, {} ops-only states", count, out.len(), dp, lattice.len()));
+        }
+    }
+    fn fresh(&self) -> Box<dyn Visitor<Y>> {
+        Box::new(SelfCheck)
     }
 }
